@@ -1,17 +1,33 @@
 #!/bin/sh
-# usage: tools_seed_run.sh [seed-dir ...]   — applies each seeded change to /repo, runs the property's quick check, reverts.
+# usage: tools_seed_run.sh [seed-dir ...]
+# Applies each seeded change to a scratch copy of /repo (never to /repo itself), runs the property's quick check on
+# that copy, and removes the copy.  Evidence and replays of these runs go to a scratch directory.
+# SEED_PROPS="C01 C05" overrides the property list; SEED_JOBS=n runs n seeds at a time (default 3).
 cd /verif
+export GOFLAGS=-mod=mod GOPROXY=off GOSUMDB=off GOTOOLCHAIN=local
 [ $# -eq 0 ] && set -- seeded/C*
-if [ -n "$(git -C /repo status --porcelain)" ]; then echo "REFUSING: /repo has uncommitted changes"; exit 2; fi
-for d in "$@"; do
-  d=${d%/}
+out=$(mktemp -d /tmp/govc-seed-out-XXXXXX)
+one() {
+  d=${1%/}
   prop=$(python3 -c "import json;print(json.load(open('$d/meta.json'))['property'])")
   props=${SEED_PROPS:-$prop}
-  if ! git -C /repo apply --exclude="MUTANTS/*" /verif/$d/patch.diff 2>/dev/null; then echo "$d: patch does not apply"; continue; fi
+  scratch=$(mktemp -d /tmp/govc-seed-repo-XXXXXX)
+  rsync -a --exclude .git /repo/ $scratch/
+  if ! git -C $scratch apply --exclude="MUTANTS/*" /verif/$d/patch.diff 2>/dev/null; then echo "$d: patch does not apply"; rm -rf $scratch; return; fi
   for p in $props; do
-    out=$(./check $p quick 2>&1); rc=$?
-    nv=$(echo "$out" | grep -c '^VIOLATION')
-    echo "$d [$p]: exit=$rc violations=$nv $(echo "$out" | grep '^VIOLATION' | head -2 | sed 's/replay=[^ ]* //' | tr '\n' ';')$(echo "$out" | grep 'ENGINE-ERROR\|UNDECIDED' | head -2 | tr '\n' ';')"
+    o=$out/$(basename $d)-$p; mkdir -p $o
+    res=$(./bin/govc check -prop $p -tier quick -repo $scratch -verif /verif -out $o 2>&1); rc=$?
+    nv=$(echo "$res" | grep -c '^VIOLATION')
+    echo "$d [$p]: exit=$rc violations=$nv $(echo "$res" | grep '^VIOLATION' | head -2 | sed 's/replay=[^ ]* //' | tr '\n' ';')$(echo "$res" | grep 'ENGINE-ERROR\|UNDECIDED' | head -2 | tr '\n' ';')" | cut -c1-300
   done
-  git -C /repo checkout -- . 
+  rm -rf $scratch
+}
+jobs=${SEED_JOBS:-3}
+n=0
+for d in "$@"; do
+  one "$d" &
+  n=$((n+1))
+  if [ $((n % jobs)) -eq 0 ]; then wait; fi
 done
+wait
+rm -rf $out
